@@ -19,6 +19,8 @@ pub enum Step {
     DelConflictCopiesOn(u8),            // delete every conflict copy on one side
     ArchiveFault(u8),                   // 0 remove, 1 truncate to 0, 2 garbage, 3 cut in half, 4 version bump, 5 keep only .bak
     WinOver(&'static str, u8, &'static str), // write on `side` some content whose BLAKE3 beats the given content at path
+    NormMtime,                          // give EVERY file of both trees one and the same modification time, long in the past
+    Leftover(u8, &'static str, &'static str), // a staging file `<path>.copia-tmp` left by a killed run (partial bytes, recent mtime)
 }
 use Step::*;
 
@@ -41,6 +43,10 @@ pub fn scenarios() -> Vec<(&'static str, Vec<Step>)> {
         ("archive-zero-length", vec![W(0, "f", "v1"), S, W(0, "g", "g"), S, D(1, "f"), ArchiveFault(1), S]),
         ("archive-other-version", vec![W(0, "f", "v1"), S, D(1, "f"), ArchiveFault(4), S]),
         ("archive-only-bak", vec![W(0, "keep", "k1"), S, W(0, "x", "x1"), S, D(1, "keep"), ArchiveFault(5), S]),
+        ("equal-size-equal-mtime-edit (C06 mtime independence)", vec![W(0, "f", "aaaa"), W(0, "g", "keep"), S, W(0, "f", "bbbb"), NormMtime, S, S, Dry]),
+        ("equal-size-equal-mtime-conflict (C06 mtime independence)", vec![W(0, "f", "base"), S, W(0, "f", "aaa1"), W(1, "f", "bbb2"), NormMtime, S, S]),
+        ("leftover-staging-file-is-not-trusted (C08)", vec![Leftover(1, "f", "PART"), W(0, "f", "the-complete-content"), S, S]),
+        ("leftover-staging-file-on-overwrite (C08)", vec![W(0, "f", "v1"), S, Leftover(1, "f", "v"), W(0, "f", "version-two"), S, S]),
         ("dry-run-in-sync", vec![W(0, "f", "v1"), S, S, Dry]),
         ("dry-run-pending", vec![W(0, "f", "v1"), S, W(1, "f", "v2"), D(0, "f"), Dry]),
     ]
@@ -106,6 +112,15 @@ pub fn run_history_all(name: &str, steps: &[Step]) -> Vec<String> {
             EditConflictCopy(s, c) => { for (p, _) in env.tree(*s) { if p.contains(".conflict-") { let _ = std::fs::write(env.side(*s).join(&p), c); } } }
             DelConflictCopiesOn(s) => { for (p, _) in env.tree(*s) { if p.contains(".conflict-") { let _ = std::fs::remove_file(env.side(*s).join(&p)); } } }
             DelConflictCopies => { for s in 0..2 { for (p, _) in env.tree(s) { if p.contains(".conflict-") { let _ = std::fs::remove_file(env.side(s).join(&p)); } } } }
+            NormMtime => {
+                let t = std::time::UNIX_EPOCH + std::time::Duration::from_secs(1_500_000_000);
+                for s in 0..2 { for (p, _) in env.tree(s) { if let Ok(f) = std::fs::File::options().write(true).open(env.side(s).join(&p)) { let _ = f.set_modified(t); } } }
+            }
+            Leftover(s, p, c) => {
+                let f = env.side(*s).join(format!("{p}.copia-tmp")); if let Some(d) = f.parent() { let _ = std::fs::create_dir_all(d); }
+                let _ = std::fs::write(&f, c);
+                if let Ok(h) = std::fs::File::options().write(true).open(&f) { let _ = h.set_modified(std::time::SystemTime::now() + std::time::Duration::from_secs(3600)); }
+            }
             WinOver(p, s, other) => {
                 let target = blake3::hash(other.as_bytes());
                 for i in 0..4096 { let c = format!("winner-{i}"); if blake3::hash(c.as_bytes()).as_bytes() > target.as_bytes() { let _ = std::fs::write(env.side(*s).join(p), c); break; } }
@@ -150,6 +165,12 @@ pub fn run_history_all(name: &str, steps: &[Step]) -> Vec<String> {
                         }
                     }
                 }
+                // C08: a live path never holds bytes that were not a complete version of something before the run
+                // (a staging leftover, a truncated or mixed file)
+                let versions: BTreeSet<&Vec<u8>> = ta.iter().chain(tb.iter()).filter(|(p, _)| !p.ends_with(".copia-tmp")).map(|(_, v)| v).collect();
+                for (after, s) in [(&na, "A"), (&nb, "B")] { for (p, v) in after.iter() {
+                    if !p.ends_with(".copia-tmp") && !versions.contains(v) { bad!(format!("[{name}] step {si}: after the run `{p}` on side {s} holds {:?}, which was no complete version of any file before the run (a staging leftover or a torn copy was published) (C08)", String::from_utf8_lossy(v))); }
+                } }
                 // C07: after an archive fault nothing is removed from either side
                 if faulted { for (before, after, s) in [(&ta, &na, "A"), (&tb, &nb, "B")] { for p in before.keys() { if !after.contains_key(p) { bad!(format!("[{name}] step {si}: with a lost/damaged archive, `{p}` was removed from side {s} (C07)")); } } } }
                 if completed {
@@ -185,13 +206,22 @@ pub fn trace_flush_order() -> Option<String> {
         .arg(b).arg("bisync").arg(env.side(0)).arg(env.side(1)).env("HOME", env.dir.join("home")).env("HOSTNAME", "vh").output().ok()?;
     let _ = st;
     let text = std::fs::read_to_string(&tr).ok()?;
+    let (ra, rb) = (env.side(0).to_string_lossy().into_owned(), env.side(1).to_string_lossy().into_owned());
     let mut fd_path: BTreeMap<(String, String), String> = BTreeMap::new();   // (pid, fd) -> path
     let mut synced: BTreeSet<String> = BTreeSet::new();
     for ln in text.lines() {
         let (pid, rest) = match ln.split_once(' ') { Some((p, r)) if p.chars().all(|c| c.is_ascii_digit()) => (p.to_string(), r.trim_start()), _ => ("0".to_string(), ln) };
         let q = |s: &str, n: usize| -> Option<String> { s.split('"').nth(2 * n + 1).map(str::to_string) };
         if rest.starts_with("openat(") || rest.starts_with("open(") || rest.starts_with("creat(") {
-            if let (Some(path), Some(fd)) = (q(rest, 0), rest.rsplit("= ").next()) { if fd.trim().chars().all(|c| c.is_ascii_digit()) { fd_path.insert((pid.clone(), fd.trim().to_string()), path); } }
+            if let (Some(path), Some(fd)) = (q(rest, 0), rest.rsplit("= ").next()) {
+                // the world model's discipline, observed: a NON-atomic write (open for writing / create / truncate) only ever
+                // targets a reserved staging name; live paths of the trees change by rename and unlink only
+                let writes = ["O_WRONLY", "O_RDWR", "O_CREAT", "O_TRUNC"].iter().any(|f| rest.contains(f)) || rest.starts_with("creat(");
+                if writes && (path.starts_with(&ra) || path.starts_with(&rb)) && !path.ends_with(".copia-tmp") && fd.trim().chars().all(|c| c.is_ascii_digit()) {
+                    return Some(format!("syscall trace of a propagating bisync: {:?} inside a synchronised tree is opened for writing/creation directly ({}) - a kill during that copy leaves a truncated file at a live path; only *.copia-tmp names may be written non-atomically (C08)", path.rsplit('/').next().unwrap_or(""), rest.split(',').nth(1).or(rest.split(',').nth(2)).unwrap_or("").trim().chars().take(60).collect::<String>()));
+                }
+                if fd.trim().chars().all(|c| c.is_ascii_digit()) { fd_path.insert((pid.clone(), fd.trim().to_string()), path); }
+            }
         } else if rest.starts_with("close(") {
             let fd: String = rest[6..].chars().take_while(|c| c.is_ascii_digit()).collect();
             fd_path.remove(&(pid.clone(), fd));
@@ -227,6 +257,9 @@ fn search_h(_contract: &str, as_twin: bool) -> i32 {
         println!("WITNESS {{\"kind\":\"pairid\",\"what\":\"{}\"}}", what.replace('"', "'"));
     }
     if std::env::var("COPIA_BIN").unwrap_or_default().is_empty() { eprintln!("COPIA_BIN not set"); if as_twin { println!("CASES 0"); } return 0; }
+    if let Some(what) = trace_flush_order() {
+        println!("WITNESS {{\"kind\":\"bisync-trace\",\"what\":\"{}\"}}", what.replace('"', "'"));
+    }
     let mut cases = 0;
     for (i, (name, steps)) in scenarios().iter().enumerate() {
         cases += 1;
